@@ -4,6 +4,8 @@ simulated pool everything runs in-process; with the real pool fork workers inher
 when the pool was created (the pool is created inside batch_run / grid_search, after CONFIG is set)."""
 import time
 
+import numpy
+
 from ECAgent.Collectors import Collector
 from ECAgent.Core import Model, System
 
@@ -156,6 +158,8 @@ def score_fn(model):
     v = table[model.rep % len(table)]
     if isinstance(v, list):          # dyadic float encoded as [numerator, denominator]
         v = v[0] / v[1]
+    elif CONFIG.get("numpy_scores") and isinstance(v, int) and -2 ** 62 < v < 2 ** 62:
+        v = numpy.int64(v)           # what e.g. numpy.sum over an integer array returns
     model.entry["scored"] = True
     return v
 
